@@ -115,6 +115,7 @@ struct Registry {
   explicit Registry(Params& pp)
       : p(pp), miner(pp.alt, pp.vbk, pp.btc), rblocks(rstorage, pp.alt),
         ref(pp.alt, pp.vbk, pp.btc, rpayloads, rblocks) {
+    setMockTime(now);
     ref.btc().bootstrapWithGenesis(GetRegTestBtcBlock());
     ref.vbk().bootstrapWithGenesis(GetRegTestVbkBlock());
     ref.bootstrap();
@@ -213,12 +214,21 @@ struct Registry {
   const BlockIndex<VbkBlock>* vidx(const std::string& id) { return miner.vbk().getBlockIndex(vbk.at(id).getHash()); }
   const BlockIndex<BtcBlock>* bidx(const std::string& id) { return miner.btc().getBlockIndex(btc.at(id).getHash()); }
 
+  // the miner is deterministic: two blocks mined on the same parent with the same content would be
+  // identical. Advance the mocked clock before every mining operation so that each mined block is new.
+  uint32_t now = 1700000000;
+  void tick() { setMockTime(++now); }
+
   std::string mineVbk(const std::string& parent) {
+    tick();
     auto* b = miner.mineVbkBlocks(1, *vidx(parent));
+    if (b == nullptr) return "SKIP miner-rejected";
     return regVbk(b->getHeader());
   }
   std::string mineBtc(const std::string& parent) {
+    tick();
     auto* b = miner.mineBtcBlocks(1, *bidx(parent));
+    if (b == nullptr) return "SKIP miner-rejected";
     return regBtc(b->getHeader());
   }
 
@@ -234,7 +244,9 @@ struct Registry {
     auto c = AuthenticatedContextInfoContainer::createFromPrevious(uint256(), prev, p.alt);
     pub.contextInfo = SerializeToVbkEncoding(c);
     auto tx = miner.createVbkTxEndorsingAltBlock(pub);
+    tick();
     auto* blk = miner.mineVbkBlocks(1, *vidx(vparent), std::vector<VbkTx>{tx});
+    if (blk == nullptr) return "SKIP miner-rejected";
     auto a = miner.createATV(blk->getHeader(), tx);
     atv[id] = a;
     atvEndorsed[id] = endorsed;
@@ -248,9 +260,14 @@ struct Registry {
                       const std::string& bparent, const std::string& lastKnownBtc) {
     const auto& eb = vbk.at(endorsed);
     auto btctx = miner.createBtcTxEndorsingVbkBlock(eb);
+    tick();
     auto* bb = miner.mineBtcBlocks(1, *bidx(bparent), {btctx});
+    if (bb == nullptr) return "SKIP miner-rejected";
     auto ptx = miner.createVbkPopTxEndorsingVbkBlock(bb->getHeader(), btctx, eb, btc.at(lastKnownBtc).getHash());
+    // the miner applies the VTB to its own tree: a VTB that is invalid there (endorsed block not an ancestor of
+    // the containing one, expired, ...) cannot be mined
     auto* vb = miner.mineVbkBlocks(1, *vidx(vparent), std::vector<VbkPopTx>{ptx});
+    if (vb == nullptr) { sweep(); return "SKIP miner-rejected " + regBtc(bb->getHeader()); }
     auto v = miner.createVTB(vb->getHeader(), ptx);
     vtb[id] = v;
     auto wid = v.getId();
